@@ -5,11 +5,13 @@
 #include "vf_probe.hpp"
 #include <covfie/core/backend/primitive/array.hpp>
 #include <covfie/core/backend/primitive/constant.hpp>
+#include <covfie/core/backend/transformer/affine.hpp>
 #include <covfie/core/backend/transformer/backup.hpp>
 #include <covfie/core/backend/transformer/clamp.hpp>
 #include <covfie/core/backend/transformer/covariant_cast.hpp>
 #include <covfie/core/backend/transformer/dereference.hpp>
 #include <covfie/core/backend/transformer/hilbert.hpp>
+#include <covfie/core/backend/transformer/linear.hpp>
 #include <covfie/core/backend/transformer/morton.hpp>
 #include <covfie/core/backend/transformer/nearest_neighbour.hpp>
 #include <covfie/core/backend/transformer/shuffle.hpp>
@@ -180,6 +182,87 @@ template <int W, int K> static void adj_h()
         same_out(r, want, 1);
     }
     vf_observe_u64(W * 16 + K);
+}
+
+// linear directly above X: bit-identical to linear above a plain row-major array holding the values X reports at the lattice points
+// (linear<strided<array>> itself is decided by C03; here only "the same, whatever lies beneath")
+template <int K> static void adj_linear_h()
+{
+    using X = typename under<K>::type;
+    using D = dom<K>;
+    constexpr size_t DX = D::dx, DY = D::dy;
+    using OV = typename X::covariant_output_t::vector_d;
+    using OT = typename X::covariant_output_t::scalar_t;
+    using R = cb::strided<cv::size2, cb::array<OV>>;
+    auto xo = beneath<K>();
+    typename R::owning_data_t ro(typename R::configuration_t{DX, DY});
+    {
+        typename X::non_owning_data_t xv(xo);
+        typename R::non_owning_data_t rv(ro);
+        for (size_t x = 0; x < DX; x++)
+            for (size_t y = 0; y < DY; y++) {
+                auto val = xv.at({x, y});
+                for (size_t q = 0; q < 2; q++) rv.at({x, y})[q] = val[q];
+            }
+    }
+    using BX = cb::linear<X>;
+    using BR = cb::linear<R>;
+    field<BX> fx(make_parameter_pack(typename BX::owning_data_t(typename BX::configuration_t{}, std::move(xo))));
+    field<BR> fr(make_parameter_pack(typename BR::owning_data_t(typename BR::configuration_t{}, std::move(ro))));
+    typename field<BX>::view_t vx(fx);
+    typename field<BR>::view_t vr(fr);
+    // every cell, fractional offsets in quarters (concrete coordinates; contents and configurations stay symbolic: with a symbolic
+    // cell the two stacks index different buffers and the solver would have to equate two bit-blasted interpolants)
+    float cx = float(vf_nondet_range(0, DX - 2)) + 0.25f * float(vf_nondet_range(0, 3));
+    float cy = float(vf_nondet_range(0, DY - 2)) + 0.25f * float(vf_nondet_range(0, 3));
+    auto a = vx.at(cx, cy);
+    auto b = vr.at(cx, cy);
+    bool ok = true;
+    for (size_t q = 0; q < 2; q++) ok = ok && (vf::same_bits<OT>(a[q], b[q]) || (a[q] != a[q] && b[q] != b[q]));
+    vf_assert(ok, 1);
+    vf_observe_u64(100 + K);
+}
+
+// affine directly above Y: the value Y's own view gives at A c + t (A c + t by the library's algebra, decided by C09)
+template <int Y> struct real_under;
+template <> struct real_under<0> { using type = cb::nearest_neighbour<cb::clamp<S>>; };
+template <> struct real_under<1> { using type = cb::linear<cb::clamp<S>>; };
+template <> struct real_under<2> { using type = cb::nearest_neighbour<cb::clamp<cb::morton<cv::size2, A, false>>>; };
+template <> struct real_under<3> { using type = cb::linear<cb::clamp<cb::hilbert<cv::size2, A>>>; };
+
+template <int Y> static void adj_affine_h()
+{
+    using T = typename real_under<Y>::type;
+    using C = typename T::backend_t;
+    using L = typename C::backend_t;
+    typename C::configuration_t cl;
+    cl.min[0] = 0; cl.min[1] = 0; cl.max[0] = EX - 1; cl.max[1] = EY - 1;
+    typename T::owning_data_t to(typename T::configuration_t{}, typename C::owning_data_t(cl, layout<L>()));
+    using B = cb::affine<T>;
+    algebra::matrix<2, 3, float> m;
+    for (size_t i = 0; i < 2; i++)
+        for (size_t j = 0; j < 3; j++) {
+            float a = vf_nondet_f32();
+            vf_assume(a >= -8.0f && a <= 8.0f);
+            m(i, j) = a;
+        }
+    algebra::affine<2, float> tr(m);
+    field<B> f(make_parameter_pack(typename B::owning_data_t(tr, std::move(to))));
+    typename field<B>::view_t v(f);
+    typename T::non_owning_data_t tv(f.backend().get_backend());
+    algebra::vector<2, float> c;
+    for (size_t k = 0; k < 2; k++) {
+        float a = vf_nondet_f32();
+        vf_assume(a >= -8.0f && a <= 8.0f);
+        c(k) = a;
+    }
+    auto r = v.at(c(0), c(1));
+    algebra::vector<2, float> p = f.backend().get_configuration() * c;
+    auto want = tv.at({p(0), p(1)});
+    bool ok = true;
+    for (size_t q = 0; q < 2; q++) ok = ok && (vf::same_bits<float>(r[q], want[q]) || (r[q] != r[q] && want[q] != want[q]));
+    vf_assert(ok, 1);
+    vf_observe_u64(200 + Y);
 }
 
 extern "C" void vf_main()
